@@ -477,6 +477,24 @@ func TestSim(t *testing.T) {
 					}
 				}
 			}
+			// every kind of request, with timeouts of seconds and minutes: the waits keep doubling whatever is sent
+			mts := []int{1, 3, 4, 5, 6, 8, 9, 11} // SOLICIT REQUEST CONFIRM RENEW REBIND RELEASE DECLINE INFORMATION-REQUEST
+			if v4 {
+				mts = []int{1, 3, 4, 7, 8} // DISCOVER REQUEST DECLINE RELEASE INFORM
+			}
+			for _, mt := range mts {
+				for _, tn := range [][2]int{{500, 4}, {3000, 3}} {
+					if envInt("VH_GRID", 1) == 0 && tn[0] != 500 {
+						continue
+					}
+					for _, k := range []int{0, tn[1]} {
+						cfg := Cfg{T: tn[0], Tries: tn[1], BufCap: 5, V4: v4, Timed: true, Urgent: true, Mode: "grid", Xid: []int{7}, MsgType: mt}
+						kk := k
+						runOne(cfg, "grid", func(s *Sim) { s.gridRun(kk, 1) })
+						stats["grid_runs"]++
+					}
+				}
+			}
 			for i := 0; i < 6; i++ {
 				cfg := Cfg{T: 1 + rng.Intn(3), Tries: []int{1, 2, 3, 4, -1}[rng.Intn(5)], BufCap: []int{1, 5}[rng.Intn(2)], V4: v4, Timed: true, Urgent: true,
 					Mode: "stream", Xid: [][]int{{7}, {7, 8}, {7, 7}}[rng.Intn(3)]}
